@@ -130,7 +130,7 @@ Definition children_phase (c : ccfg) (p : json) (obs desired : umap) : prog bool
 
 Definition status_result (failed : bool) (sr : apires) : sync_result :=
   match sr with
-  | RErr ENotFound | RErr EConflict => SDone
+  | RErr ENotFound | RErr EConflict => if failed then SErr else SDone
   | RErr _ => SErr
   | ROk _ => if failed then SErr else SDone
   end.
@@ -202,6 +202,17 @@ Proof.
   intros Hf Hs. rewrite C11_status_after_children. cbn [snd]. rewrite Hf, Hs. reflexivity.
 Qed.
 
+(* with the current model (status NotFound / Conflict no longer masks a child failure):
+   a child failure always surfaces, whatever the outcome of the status write *)
+Corollary C11_child_error_always_reported c p obs r ds (e : env) h :
+  snd (run (children_phase c p obs (fold_left (fun m o => uinsert o m) ds [])) e h) = true ->
+  snd (run (after_labels c p obs r ds) e h) = SErr.
+Proof.
+  intros Hf. rewrite C11_status_after_children. cbn [snd]. rewrite Hf.
+  unfold status_result. destruct (snd (run (update_parent_status c p (hr_status r)) e _)) as [o|err];
+    [reflexivity|destruct err; reflexivity].
+Qed.
+
 (* the status phase always talks to the server: its first step is the GET of the parent *)
 Lemma C11_status_starts_with_get c p st :
   exists k, update_parent_status c p st = Do (status_get c p) k.
@@ -217,3 +228,4 @@ Print Assumptions C11_bounded_run.
 Print Assumptions finish_sync_run.
 Print Assumptions C11_status_after_children.
 Print Assumptions C11_child_error_reported.
+Print Assumptions C11_child_error_always_reported.
